@@ -224,3 +224,39 @@ V_ENSURES(V_IMP(V_OLD(g_mod->tb.tokens) > 0 && mod != NULL && g_mod->ctx == g_mc
                 g.ms_calls == V_OLD(g.ms_calls) + 1 && g.ms_flag == RM && g.ms_stop
                 && V_IMP(g_ms_ret == 0, g.reset_calls == V_OLD(g.reset_calls) + 1 && (g_mod->state == M_MOD_STOPPED || g_mod->state == M_MOD_ZOMBIE))))  /*@C01.stop-is-one-stop-transition*/
 ;
+
+/* ---- token bucket / batch timeout setters: replace the internal timer --------------------------------------------------------------- */
+V_CONTRACT
+int m_mod_src_deregister_tmr(m_mod_t *mod, const m_src_tmr_t *its)
+V_REQUIRES(mod == g_mod && its != NULL)
+V_ASSIGNS(g.deregtmr_calls, g.deregtmr_arg, g.deregtmr_ns, g_mod->tb.tokens)
+V_ENSURES(g.deregtmr_calls == V_OLD(g.deregtmr_calls) + 1 && g.deregtmr_arg == its && g.deregtmr_ns == its->ns && g_mod->tb.tokens <= V_OLD(g_mod->tb.tokens))
+;
+V_CONTRACT
+int m_mod_src_register_tmr(m_mod_t *mod, const m_src_tmr_t *its, m_src_flags flags, const void *userptr)
+V_REQUIRES(mod == g_mod && its != NULL)
+V_ASSIGNS(g.regtmr_calls, g.regtmr_arg, g.regtmr_flags, g.regtmr_up, g.regtmr_ns, g_mod->tb.tokens)
+V_ENSURES(V_RET == g_regtmr_ret && g.regtmr_calls == V_OLD(g.regtmr_calls) + 1 && g.regtmr_arg == its && g.regtmr_flags == flags && g.regtmr_up == userptr && g.regtmr_ns == its->ns
+          && g_mod->tb.tokens <= V_OLD(g_mod->tb.tokens))
+;
+#ifdef V_TB_UNIT
+V_CONTRACT
+int m_mod_set_tokenbucket(m_mod_t *mod, uint32_t rate, uint64_t burst)
+V_REQUIRES(v_base_ok() && (mod == NULL || (mod == g_mod && V_RW_OK(g_mod, sizeof(m_mod_t)) && v_state_valid(g_mod->state))))
+V_ASSIGNS(V_G_MOD(mod) && rate <= BILLION: g.deregtmr_calls, g.deregtmr_arg, g.deregtmr_ns, g.regtmr_calls, g.regtmr_arg, g.regtmr_flags, g.regtmr_up, g.regtmr_ns,
+          g_mod->tb.rate, g_mod->tb.burst, g_mod->tb.tokens, g_mod->tb.timer)
+V_ENSURES(V_IMP(!(mod != NULL && !(V_OLD(g_mod->state) & M_MOD_ZOMBIE) && g_mod->ctx == g_mctx) || rate > BILLION, V_RET < 0))                  /*@C18.bad-rate-or-refused-call-changes-nothing*/
+/* a previously configured refill timer is removed (looked up by its old period) before anything is overwritten */
+V_ENSURES(V_IMP(V_G_MOD(mod) && rate <= BILLION, g.deregtmr_calls == V_OLD(g.deregtmr_calls) + (V_OLD(g_mod->tb.timer.ns) != 0 ? 1 : 0)
+                && V_IMP(V_OLD(g_mod->tb.timer.ns) != 0, g.deregtmr_arg == &g_mod->tb.timer && g.deregtmr_ns == V_OLD(g_mod->tb.timer.ns))))                    /*@C18.old-refill-timer-removed-on-reconfiguration*/
+/* rate 0 removes the limit */
+V_ENSURES(V_IMP(V_G_MOD(mod) && rate == 0, V_RET == 0 && g_mod->tb.rate == 0 && g_mod->tb.tokens == UINT64_MAX && g_mod->tb.burst == UINT64_MAX && g_mod->tb.timer.ns == 0
+                && g.regtmr_calls == V_OLD(g.regtmr_calls)))                                                                               /*@C18.rate-zero-removes-the-limit*/
+/* otherwise: bucket full (tokens == burst), one refill tick every period in [1, 10^9] ns (the code computes floor(10^9 / rate); the exact quotient is not
+ * restated here: two symbolic dividers in one formula did not finish), delivered through an internal high-priority timer keyed by the bucket */
+V_ENSURES(V_IMP(V_G_MOD(mod) && rate > 0 && rate <= BILLION, g_mod->tb.rate == (uint16_t)rate && g_mod->tb.burst == burst && g_mod->tb.tokens <= burst
+                && g_mod->tb.timer.ns >= 1 && g_mod->tb.timer.ns <= BILLION && g_mod->tb.timer.clock_id == CLOCK_MONOTONIC
+                && g.regtmr_calls == V_OLD(g.regtmr_calls) + 1 && g.regtmr_arg == &g_mod->tb.timer && g.regtmr_up == (const void *)&g_mod->tb
+                && (g.regtmr_flags & M_SRC_INTERNAL) && (g.regtmr_flags & M_SRC_PRIO_HIGH) && g.regtmr_ns == g_mod->tb.timer.ns && V_RET == g_regtmr_ret))  /*@C18.bucket-armed-with-burst-and-refill-period*/
+;
+#endif
